@@ -962,6 +962,7 @@ func (w *World) predicateImpliesNonNil(g *ssa.Function, param ssa.Value, suffix 
 
 func c11RuleG(w *World, r *Report) {
 	const rule = "C11/G-error-gate"
+	c11ListenerKeeps(w, r, rule)
 	for _, name := range []string{"FormatPacketDsl", "ParseFile"} {
 		fn := w.Parser.Func(name)
 		if fn == nil {
@@ -1118,6 +1119,152 @@ func c11RuleG(w *World, r *Report) {
 				r.fail(rule, key, w.pos(fn.Pos()), "the listener whose HasErrors() gates the visit is never added to the "+kind+": its errors go to the console listener only and the input is treated as valid")
 			}
 		}
+	}
+}
+
+// c11ListenerKeeps: Rule G's premise "no error was reported" is read off the collecting listener: its SyntaxError method (the one
+// ANTLR calls) must append to the list on every call, and HasErrors must be true from the first entry on.
+func c11ListenerKeeps(w *World, r *Report, rule string) {
+	var report, has *ssa.Function
+	for _, fn := range w.srcFuncs {
+		if fn.Pkg != w.Parser || recvNamedCore(fn) != "SyntaxErrorListener" || fn.Blocks == nil {
+			continue
+		}
+		switch fn.Name() {
+		case "SyntaxError":
+			report = fn
+		case "HasErrors":
+			has = fn
+		}
+	}
+	if report == nil || has == nil {
+		r.fail(rule, "the collecting listener keeps every error it is told", "internal/parser/common.go", "SyntaxErrorListener.SyntaxError / HasErrors not found: anchor lost")
+		return
+	}
+	// which member does HasErrors measure?
+	listField := -1
+	verdict := ""
+	judged := false
+	for _, b := range has.Blocks {
+		ret, ok := b.Instrs[len(b.Instrs)-1].(*ssa.Return)
+		if !ok || len(ret.Results) != 1 {
+			continue
+		}
+		bo, ok := stripIdentity(ret.Results[0]).(*ssa.BinOp)
+		if !ok {
+			continue
+		}
+		for i, pair := range [][2]ssa.Value{{bo.X, bo.Y}, {bo.Y, bo.X}} {
+			k, isK := pair[1].(*ssa.Const)
+			call, isC := stripIdentity(pair[0]).(*ssa.Call)
+			if !isK || !isC || k.Value == nil || k.Value.Kind() != constant.Int {
+				continue
+			}
+			bi, isBi := call.Call.Value.(*ssa.Builtin)
+			if !isBi || bi.Name() != "len" || len(call.Call.Args) != 1 {
+				continue
+			}
+			ld, ok := stripIdentity(call.Call.Args[0]).(*ssa.UnOp)
+			if !ok || ld.Op != token.MUL {
+				continue
+			}
+			fa, ok := ld.X.(*ssa.FieldAddr)
+			if !ok || stripIdentity(fa.X) != ssa.Value(has.Params[0]) {
+				continue
+			}
+			listField = fa.Field
+			n, _ := constant.Int64Val(k.Value)
+			at := func(length int64) bool {
+				a, c := length, n
+				if i == 1 {
+					a, c = n, length
+				}
+				switch bo.Op {
+				case token.GTR:
+					return a > c
+				case token.GEQ:
+					return a >= c
+				case token.LSS:
+					return a < c
+				case token.LEQ:
+					return a <= c
+				case token.EQL:
+					return a == c
+				case token.NEQ:
+					return a != c
+				}
+				return false
+			}
+			judged = true
+			if at(0) || !at(1) || !at(2) {
+				verdict = fmt.Sprintf("HasErrors yields %v / %v / %v for 0 / 1 / 2 collected errors: an input with syntax errors is treated as valid (or a valid one as broken)", at(0), at(1), at(2))
+			}
+		}
+	}
+	key := "HasErrors is true from the first collected error on"
+	switch {
+	case !judged:
+		r.pass(rule, key, w.pos(has.Pos()), "not judged: HasErrors is not a comparison of the length of a member with a constant")
+	case verdict != "":
+		r.fail(rule, key, w.pos(has.Pos()), verdict)
+	default:
+		r.pass(rule, key, w.pos(has.Pos()), "")
+	}
+	key = "the collecting listener keeps every error it is told"
+	var appendsAlways func(fn *ssa.Function, depth int) bool
+	appendsAlways = func(fn *ssa.Function, depth int) bool {
+		if fn == nil || fn.Blocks == nil || depth > 3 || len(fn.Params) == 0 {
+			return false
+		}
+		found := false
+		forEachInstr(fn, func(b *ssa.BasicBlock, ins ssa.Instruction) {
+			if found {
+				return
+			}
+			for _, rb := range fn.Blocks {
+				if _, isRet := rb.Instrs[len(rb.Instrs)-1].(*ssa.Return); isRet && !b.Dominates(rb) {
+					return
+				}
+			}
+			switch x := ins.(type) {
+			case ssa.CallInstruction:
+				// handed on to another method of the same listener
+				cc := x.Common()
+				if g := cc.StaticCallee(); g != nil && len(cc.Args) > 0 && stripIdentity(cc.Args[0]) == ssa.Value(fn.Params[0]) && g != fn && appendsAlways(g, depth+1) {
+					found = true
+				}
+			case *ssa.Store:
+				fa, ok := x.Addr.(*ssa.FieldAddr)
+				if !ok || stripIdentity(fa.X) != ssa.Value(fn.Params[0]) || (listField >= 0 && fa.Field != listField) {
+					return
+				}
+				ap, ok := stripIdentity(x.Val).(*ssa.Call)
+				if !ok {
+					return
+				}
+				if bi, ok := ap.Call.Value.(*ssa.Builtin); !ok || bi.Name() != "append" || len(ap.Call.Args) != 2 {
+					return
+				}
+				ld, ok := stripIdentity(ap.Call.Args[0]).(*ssa.UnOp)
+				if !ok || ld.Op != token.MUL {
+					return
+				}
+				if fa0, ok := ld.X.(*ssa.FieldAddr); !ok || fa0.Field != fa.Field || stripIdentity(fa0.X) != ssa.Value(fn.Params[0]) {
+					return
+				}
+				if len(variadicOperands(ap.Call.Args[1])) == 0 {
+					return
+				}
+				found = true
+			}
+		})
+		return found
+	}
+	kept := appendsAlways(report, 0)
+	if kept {
+		r.pass(rule, key, w.pos(report.Pos()), "SyntaxError appends to the list HasErrors measures, on every call")
+	} else {
+		r.fail(rule, key, w.pos(report.Pos()), "SyntaxErrorListener.SyntaxError does not, on every call, append an entry to the list HasErrors measures: ANTLR reports the error, nobody remembers it, and the broken tree is visited")
 	}
 }
 
